@@ -26,7 +26,7 @@ ASSUMPTIONS = [
     "pre_perm is kept newest-first in the model (only [-1], [:-1], min/max, pop(0) and sort() are used by the code)",
 ]
 PARTIAL = [
-    "PROVED since the first build (nothing of Theorem 3.13 is only evaluated any more): pinword_contains_iff (Bassino-Bouvel-Pierrot-Rossin Thm 3.13: sigma <= perm(w) <-> some pin word u of sigma has pinword_contains(w,u)) in both directions for EVERY pin word w of the language and every permutation - Props/C14.lean A6 (pinword_contains_sound, pinword_contains_complete, pinword_contains_iff, pinword_contains_iff_table, containsTable_spec), with consequences A6' basisAccepts_iff_contains (= C15 accepts_iff_contains), A7 hasFinitePinperms_iff / hasFinitePinperms_class_only, A8 decode_act / hasFinitePinperms_act (= C16 pin_D8_invariant). The ops pw_pcont / pw_pcontnt are now a correspondence test of the real code against the proved model semantics; the driver evaluates the memoised variant containsTableMemo (equal to containsTable by unfolding; that equality is evaluated, not stated as a theorem)",
+    "PROVED since the first build (nothing of Theorem 3.13 is only evaluated any more): pinword_contains_iff (Bassino-Bouvel-Pierrot-Rossin Thm 3.13: sigma <= perm(w) <-> some pin word u of sigma has pinword_contains(w,u)) in both directions for EVERY pin word w of the language and every permutation - Props/C14.lean A6 (pinword_contains_sound, pinword_contains_complete, pinword_contains_iff, pinword_contains_iff_table, containsTable_spec), with consequences A6' basisAccepts_iff_contains (= C15 accepts_iff_contains), A7 hasFinitePinperms_iff / hasFinitePinperms_class_only, A8 decode_act / hasFinitePinperms_act (= C16 pin_D8_invariant). The ops pw_pcont / pw_pcontnt are now a correspondence test of the real code against the proved model semantics; the driver evaluates the memoised variant Driver.C14.containsTableMemo, PROVED equal to containsTable for all arguments (Props/C14Ext.lean containsTableMemo_eq, containsTableMemo_spec); every other op of the C14 driver calls the Model.C14 function of the theorems directly",
 ]
 TRUSTED = ["fractions.Fraction == exact rational arithmetic (Lean core Rat)"]
 
